@@ -67,6 +67,10 @@ class Contract:
         # the obligations whose name contains one of the fragments are counted and reported under it (a call-site
         # precondition that carries another property through this function)
         self.partial_props = kw.pop("partial_props", {})
+        # exc class -> necessary condition (or None), like may_raise, but only for the function's own verification:
+        # call sites do not branch on it (an internal consistency error aborts the request; the callers' contracts say
+        # nothing about such a path, exactly as when the callee's contract was an assumed one without it)
+        self.may_raise_internal = kw.pop("may_raise_internal", {})
         if kw:
             raise TypeError(f"unknown contract fields {list(kw)}")
 
@@ -704,7 +708,7 @@ def verify_function(con: Contract) -> FnReport:
                 e = outcome[1]
                 cond = None
                 found = False
-                for exc, cnd in list(con.raises.items()) + list(con.may_raise.items()):
+                for exc, cnd in list(con.raises.items()) + list(con.may_raise.items()) + list(con.may_raise_internal.items()):
                     if isinstance(e, exc):
                         found = True
                         cond = cnd
